@@ -183,6 +183,24 @@ func c07Ops() []c07Op {
 			m.typ["K2"] = "vKid"
 			return true, nil
 		}},
+		{"add child K3 to N1 with points stamped one hour in the past (imported / back-filled data)", func(g *rig, m *c07Model) (bool, error) {
+			if _, ok := m.typ["N1"]; !ok {
+				return false, nil
+			}
+			if _, exists := m.edges[[2]string{"N1", "K3"}]; exists {
+				return false, nil
+			}
+			old := time.Now().Add(-time.Hour)
+			if err := client.SendNodePoints(g.inst.Nc, "K3", data.Points{{Type: "description", Text: "kid3", Origin: "creator", Time: old}}, true); err != nil {
+				return true, err
+			}
+			if err := client.SendEdgePoints(g.inst.Nc, "K3", "N1", data.Points{{Type: data.PointTypeTombstone, Value: 0, Time: old.Add(time.Second), Origin: "creator"}, {Type: data.PointTypeNodeType, Text: "vKid", Origin: "creator", Time: old.Add(time.Second)}}, true); err != nil {
+				return true, err
+			}
+			m.edges[[2]string{"N1", "K3"}] = false
+			m.typ["K3"] = "vKid"
+			return true, nil
+		}},
 	}
 }
 
